@@ -20,11 +20,18 @@ for d in sorted(os.listdir(S)):
             first = f.split("refuted")[0].replace("obligation ", "").strip() if "obligation" in f else f[:110]
             first = first[:120]
             break
-    rows.append((d, "yes" if m.get("confirmed") else "NO", "yes" if m.get("detected") else "NO",
+    conf = "yes" if m.get("confirmed") else "NO"
+    if not m.get("confirmed") and m.get("confirmed_on_confirm_base"):
+        conf = f"on {m['confirm_base']['commit']} (latent on HEAD)"
+    first = first.replace("|", "/")
+    kind = "bounded" if first.startswith("bounded") else "deductive"
+    rows.append((d, conf, ("yes, " + kind) if m.get("detected") else "NO",
                  ", ".join(caught), first))
 print("| seeded change | confirmed | caught | check | first failing obligation / clause |")
 print("|---|---|---|---|---|")
 for r in rows:
     print("| " + " | ".join(r) + " |")
 print()
-print(f"{sum(1 for r in rows if r[2] == 'yes')} of {len(rows)} caught")
+print(f"{sum(1 for r in rows if r[2].startswith('yes'))} of {len(rows)} caught; "
+      f"{sum(1 for r in rows if r[2] == 'yes, deductive')} by a deductive obligation first, "
+      f"{sum(1 for r in rows if r[2] == 'yes, bounded')} by the bounded stand-in only")
